@@ -3,6 +3,7 @@ CONSTANTS
   Keys = {"k1", "k2", "k3"}
   Loads = {"l1", "l2"}
   Variant = "fixed"
+  Hook = "none"
 INVARIANTS MutateOnlyByHolder OneWriter EmitOnlyByHolder OneFrameAtATime NoDeadlock
 PROPERTY EveryoneFinishes
 CHECK_DEADLOCK FALSE
